@@ -251,6 +251,8 @@ def synthetic(ctx):
                     node = getattr(node, part)
                 for k, want in exp.items():
                     got = field_value(getattr(node, k.lstrip('#')))
+                    if got is None and want == '':
+                        continue                 # an empty byte field is kept as None; the byte-exact round trip below still applies
                     if got != want and not (isinstance(want, int) and isinstance(got, float) and got == want):
                         ctx.violation('%s (%s): field %s is %r, the bytes say %r' % (name, mode, k.lstrip('#'), got, want), inp)
                 out = reencode(wrap)
